@@ -118,6 +118,8 @@ ForestClauses(RF) ==
  \cup (IF shape /\ DupNodes(FN) # {} THEN {"C03:duplicate-alternative"} ELSE {})
  \cup (IF shape /\ C.count.loop # cyc THEN {"C03:looperror-iff-cyclic"} ELSE {})
  \cup (IF posok /\ implP = RF.packed /\ cyc # refInf THEN {"C03:cyclic-iff-infinite"} ELSE {})
+ \* (whatever the recorded positions are worth: LoopError is for inputs with infinitely many derivations only)
+ \cup (IF sentence /\ shape /\ C.count.loop /\ ~refInf THEN {"C03:looperror-although-finitely-many-derivations"} ELSE {})
  \cup (IF small /\ posok /\ ~(implNorm \subseteq refTrees) THEN {"C01:invalid-tree"} ELSE {})
  \cup (IF small /\ posok /\ ~(refTrees \subseteq implNorm) THEN {"C02:missing-tree"} ELSE {})
  \cup (IF small /\ ~C.count.loop /\ C.count.cap # Cardinality(implTrees) THEN {"C03:len"} ELSE {})
